@@ -641,6 +641,13 @@ func (d *db) applyDeleteRange(batch WriteBatch, notifications *notifications, de
 		notifications.DeletedRange(delReq.StartInclusive, delReq.EndExclusive)
 	}
 
+	if delReq.EndExclusive == "" {
+		// No key sorts before the empty key: [start, "") is empty. It must not be left to the engine:
+		// Pebble takes a pair of empty bounds either as an empty range or as "no bounds at all", depending
+		// on the state of the recycled iterator it picks, i.e. differently from one replica to the other.
+		return &proto.DeleteRangeResponse{Status: proto.Status_OK}, nil
+	}
+
 	// The internal keys live in the same key space as the user keys (a contiguous block in the
 	// hierarchical order). A range given by a client must never reach into that block: only a range that
 	// starts inside it (e.g. the cleanup of a session) is meant to delete internal keys.
